@@ -144,6 +144,10 @@ class EZSP:
     async def reset(self):
         LOGGER.debug("Resetting EZSP")
         self.stop_ezsp()
+
+        # Commands still waiting for their turn were accepted before EZSP was stopped:
+        # fail them like new ones instead of sending them while the NCP restarts
+        self._protocol.stop()
         await self._gw.reset()
 
         # Always switch back to protocol v4 after a reset
